@@ -6,6 +6,7 @@ CONSTANTS
   MaxDepth = 3
   MaxOut = 120
   Repaired = {}
+  BlockFlushes = TRUE
   GenClears = TRUE
   EmitEdges = TRUE
 INIT Init
